@@ -3,3 +3,4 @@ import Dhcp.Go.Lexer
 import Dhcp.V4.Packet
 import Dhcp.V4.Domain
 import Dhcp.V4.Build
+import Dhcp.Spec.V4Client
